@@ -66,6 +66,10 @@ def make_class(P, mode, shape, creator, slow=0.0, inherit=False):
                 book.serving.append((self.serial, conn, callno))
             return [self.serial, conn]
 
+        def boom(self):
+            # a call that fails: the failure (and whatever the daemon keeps of it) must not keep this instance alive
+            raise ValueError("this call fails", self.serial)
+
         def fire(self, callno=None):
             # (made oneway below) which instance serves a connection's oneway call is part of the same accounting
             conn = getattr(ctx.client, "_vserial", None)
@@ -160,6 +164,13 @@ def socket_case(fx, mode, shape, creator, nconn, ncalls, rec, r, sername, race, 
                 except Exception as x:
                     out.append(("exc", type(x).__name__))
             results[i] = out
+            if mode == "session" and creator in ("none", "ok", "subclass"):
+                try:
+                    p.boom()
+                except ValueError:
+                    rec.count("failing_calls_on_session_instances")
+                except Exception:
+                    pass
             if i % 2 == 0:
                 if i % 4 == 0 and p._pyroConnection is not None:
                     # every other closing client goes away abortively (RST): the connection has ended all the same
